@@ -68,14 +68,17 @@ def oracle(tier, rng, deep=False):
     for _ in range(nrep):
         for spec in compos.menu(rng, degenerate):
             X = np.array(spec["X"])
-            for sp_ in ([False, True] if spec["solver"] in ("AndersonCD", "GroupBCD", "MultiTaskBCD", "GramCD", "FISTA") else [False]):
+            variants = [(sp_, wm_) for sp_ in ([False, True] if spec["solver"] in ("AndersonCD", "GroupBCD", "MultiTaskBCD", "GramCD", "FISTA") else [False])
+                        for wm_ in ([False, True] if spec["solver"] in ("AndersonCD", "ProxNewton", "GroupBCD", "GramCD", "MultiTaskBCD") else [False])]
+            for sp_, wm_ in variants:
                 if sp_ and spec["datafit"] == "Logistic" and spec["penalty"] == "WeightedGroupL2":
                     continue
-                site = f"{spec['solver']}:{spec['datafit']}:{spec['penalty']}"
+                site = f"{spec['solver']}:{spec['datafit']}:{spec['penalty']}" + (":warm" if wm_ else "")
                 inp = {k: v for k, v in spec.items()}
                 inp["sparse"] = sp_
+                inp["warm"] = wm_
                 try:
-                    out = compos.run_composition(spec, sp_)
+                    out = compos.run_composition(spec, sp_, wm_)
                 except ValueError as e:
                     msg = str(e)
                     if any(t in msg for t in ("positive values", "SmallResidual", "should", "must", "not supported", "Sparse matrices")):
@@ -102,6 +105,8 @@ def oracle(tier, rng, deep=False):
                 coef = w[:pfeat]
                 pen_zero_weight = spec["penalty"] in ("WeightedL1",)       # zero-weight features are unpenalised: exempt
                 bad = [j for j in zero_cols if np.any(coef[j] != 0)]
+                if wm_ and not out["stop"] <= spec["tol"]:
+                    bad = []          # a warm start that is non-zero on a null column may legitimately be returned unconverged (budget)
                 if bad and not pen_zero_weight:
                     failures.append(dict(site=f"nonzero-on-null-column:{site}", input=inp, observed=dict(w=w.tolist(), columns=bad)))
     return dict(evaluations=ev, distinct_nontrivial=nontriv, failures=failures, samples=[dict(runs=ev)])
